@@ -336,6 +336,7 @@ func newHostRunner(storerMode bool, init []*sx.Node, seed string, hcmds []string
 
 // next performs one Next call, first letting the pending host command make progress.
 func (h *hostRunner) next(choice int) (out *sx.Node) {
+	waitDue := false
 	h.mu.Lock()
 	if h.pending != nil {
 		if h.pending.remaining == 0 {
@@ -355,6 +356,7 @@ func (h *hostRunner) next(choice int) (out *sx.Node) {
 		// a <<wait n>> is running (the generators use n <= 0.05): let it finish
 		time.Sleep(120 * time.Millisecond)
 		h.waitSeen = false
+		waitDue = true
 	}
 	defer func() {
 		if r := recover(); r != nil {
@@ -362,6 +364,16 @@ func (h *hostRunner) next(choice int) (out *sx.Node) {
 		}
 	}()
 	el, err := h.dr.Next(choice)
+	if waitDue {
+		// on a loaded machine the timer goroutine of the built-in can be late: keep asking for a little while.
+		// The window (25 ms) is shorter than the shortest wait the generators write (30 ms), so a wait that the
+		// runner has only just started is still reported as "waiting".
+		deadline := time.Now().Add(25 * time.Millisecond)
+		for errors.Is(err, ysgo.ErrWaitingForCommandCompletion) && h.getPending() == nil && time.Now().Before(deadline) {
+			time.Sleep(time.Millisecond)
+			el, err = h.dr.Next(choice)
+		}
+	}
 	if h.conv {
 		// Converted handlers complete on goroutines of the bridge: "the command is due at this call"
 		// means the runner gets past it as soon as that goroutine has reported. Keep polling while
